@@ -3,4 +3,5 @@ import ThruVerif.Gen.Consts
 import ThruVerif.Gen.Geometry
 import ThruVerif.Gen.Layouts
 import ThruVerif.Gen.Order
+import ThruVerif.Gen.Shapes
 import ThruVerif.Model.Geometry
